@@ -15,7 +15,7 @@ head -5 "$d/demo_test.go" | grep -q "run with: *-race" && race="-race"
 cd "$wt"
 cp "$d/demo_test.go" "$wt/$place/zz_seed_demo_test.go"
 if go test $race -vet=off -count=1 "./$place" >/tmp/seed_demo_clean.log 2>&1; then r3=pass; else r3=FAIL; fi
-git apply "$d/patch.diff" || { echo "patch does not apply to HEAD"; exit 2; }
+git apply "$d/patch.diff" 2>/dev/null || git apply -3 "$d/patch.diff" >/dev/null 2>&1 || { echo "patch does not apply to HEAD"; exit 2; }
 if go test $race -vet=off -count=1 "./$place" >/tmp/seed_demo_mut.log 2>&1; then r2=PASS; else r2=fail; fi
 rm "$wt/$place/zz_seed_demo_test.go"
 if go test -vet=off -count=1 ./... >/tmp/seed_suite.log 2>&1; then r1=pass; else r1=FAIL; fi
